@@ -22,3 +22,7 @@ func FSEvent(kind, path string, b []byte) {}
 
 // WrapFile lets the harness observe and fault operations on f.
 func WrapFile(path string, f File) File { return f }
+
+// Evict reports that the max-memory logic is about to evict key from database db
+// with the given usage figure and limit.
+func Evict(db int, key string, memUsed int64, limit uint64) {}
